@@ -1235,6 +1235,19 @@ def _asym_groups(peers):
     return {k: v for k, v in seen.items() if len(v) > 1}
 
 
+def _key_compat(case, a, b):
+    """the hypothesis of the mirroring theorems (Lean `KeyCompat`): two handler results of the pair get the same key at `a`
+    (b's address and vrf) iff they get the same key at `b` (a's address and vrf); read off the case's handler table"""
+    keys = []
+    for rule in case.get("rules", []):
+        for h in rule.get("h", []):
+            if {h.get("l"), h.get("r")} != {a, b}:
+                continue
+            sa, sb = (h.get("left") or {}, h.get("right") or {}) if h.get("l") == a else (h.get("right") or {}, h.get("left") or {})
+            keys.append(((sa.get("addr"), sa.get("vrf")), (sb.get("addr"), sb.get("vrf"))))
+    return all((k1[0] == k2[0]) == (k1[1] == k2[1]) for k1 in keys for k2 in keys)
+
+
 def oracle_mirror(case, r):
     out = []
     devs = [d["fqdn"] for d in case["devices"]]
@@ -1252,6 +1265,8 @@ def oracle_mirror(case, r):
                 continue   # an address that is not an IP address: outside the property's domain
             if sa != sb:
                 asym = _asym_groups(pa) or _asym_groups(pb)
+                if not asym and not _key_compat(case, a, b):
+                    asym = {"handler results of the pair are not key-compatible": True}
                 if asym:
                     out.append(dict(sig="mirror-asym-peerkey",
                                     what="%s and %s group the same handler results differently (%d vs %d sessions): pairs are keyed "
